@@ -1,0 +1,50 @@
+//go:build verif
+
+package webp
+
+// Verification hooks for property C19 (pixel-placement independence). Add-only,
+// compiled only with -tags verif: one-line calls of the import helpers.
+
+import (
+	"image"
+
+	"github.com/deepteams/webp/internal/lossy"
+)
+
+// VerifImageHasAlpha = imageHasAlpha.
+func VerifImageHasAlpha(img image.Image) bool { return imageHasAlpha(img) }
+
+// VerifLossyImageHasAlpha = lossy.imageHasAlpha.
+func VerifLossyImageHasAlpha(img image.Image) bool { return lossy.VerifImageHasAlpha(img) }
+
+// VerifExtractAlpha = extractAlphaWith(img, true).
+func VerifExtractAlpha(img image.Image) []byte { return extractAlphaWith(img, true) }
+
+// VerifCleanupTransparentAreaLossy = cleanupTransparentAreaLossyWith(img, true); returns
+// the cleaned copy's pixels (w*h*4, origin placement).
+func VerifCleanupTransparentAreaLossy(img image.Image) []byte {
+	out := cleanupTransparentAreaLossyWith(img, true)
+	if n, ok := out.(*image.NRGBA); ok && n != img {
+		return n.Pix
+	}
+	return nil
+}
+
+// VerifSharpYUV = sharpYUVConvert(img): the Y, Cb, Cr planes with their strides.
+func VerifSharpYUV(img image.Image) (y, cb, cr []byte, yStride, cStride int, err error) {
+	yuv, err := sharpYUVConvert(img)
+	if err != nil {
+		return nil, nil, nil, 0, 0, err
+	}
+	return yuv.Y, yuv.Cb, yuv.Cr, yuv.YStride, yuv.CStride, nil
+}
+
+// VerifLossyImportPlanes = lossy.NewEncoder(img, cfg)'s imported planes, for the
+// default configuration at the given quality with dithering amplitude `dither`
+// (0 = off) and the cached alpha flag hasAlpha (-1 = let the lossy package scan).
+func VerifLossyImportPlanes(img image.Image, dither float32, hasAlpha int) (y, u, v []byte, yStride, uvStride, padW, padH int) {
+	cfg := lossy.DefaultConfig(75)
+	cfg.Dithering = dither
+	cfg.HasAlpha = hasAlpha
+	return lossy.VerifImportPlanes(img, cfg)
+}
